@@ -327,7 +327,67 @@ def gen_angles(rng, n, tier="quick"):
                 yield Case("elevation", "elevation %s %s" % (base, B(wr)), tok_res(st, v, FS), descr)
 
 
+def gen_extreme(rng, n, tier="quick"):
+    """C20: finite but extreme arguments — results must be of the documented type or one of the
+    documented ValueErrors; model and implementation must agree on the error *kind*"""
+    from astral import Observer
+    lats = [90.0, -90.0, 89.8, -89.8, 89.80000000000001, 0.0, 66.56, -66.56, 75.0]
+    lons = [180.0, -180.0, 0.0, 179.999, -179.999, 90.0]
+    elevs = [-500.0, 0.0, 5e-324, 1e-320, 1e-200, 1e300, 8849.0, 4e5, (1e300, 1.0), (1e-200, 0.0),
+             (0.0, 0.0), (0.0, 10.0), (-1e300, 1e300), (5.0, 0.0), (1e-320, 1e-320), (3.0, 4.0)]
+    years = [2, 3, 9997, 9998, 1900, 2100, 1582]
+    for i in range(n):
+        o = Observer(rng.choice(lats + [gens.rand_lat(rng)]), rng.choice(lons + [gens.rand_lon(rng)]),
+                     rng.choice(elevs))
+        y = rng.choice(years)
+        d = datetime.date(y, rng.choice([1, 6, 12]), rng.choice([1, 15, 28]))
+        if y in (2, 9998) and rng.random() < 0.3:
+            d = datetime.date(y, 1, 1) if y == 2 else datetime.date(y, 12, 31)
+        z = zones.fixed(rng.choice([0, 0, 60 * rng.randint(-12, 14), 345, -210]))
+        tz = z.tzinfo
+        k = i % 10
+        if k == 0:
+            dep = rng.choice([0.0, 180.0, 90.0, rng.uniform(0, 180)])
+            yield _event_case(rng, "dawn", o, d, z, " " + F(dep), lambda: sun.dawn(o, d, dep, tz),
+                              {"depression": dep})
+        elif k == 1:
+            dep = rng.choice([0.0, 180.0, 90.0, rng.uniform(0, 180)])
+            yield _event_case(rng, "dusk", o, d, z, " " + F(dep), lambda: sun.dusk(o, d, dep, tz),
+                              {"depression": dep})
+        elif k == 2:
+            yield _event_case(rng, "sunrise", o, d, z, "", lambda: sun.sunrise(o, d, tz), {})
+        elif k == 3:
+            yield _event_case(rng, "sunset", o, d, z, "", lambda: sun.sunset(o, d, tz), {})
+        elif k == 4:
+            el = rng.choice([-91.0, 270.0, 90.0, 180.0, 0.0, rng.uniform(-91, 270)])
+            di = rng.choice([RISING, SETTING])
+            wr = rng.random() < 0.7
+            st, v = call(sun.time_at_elevation, o, el, d, di, tz, wr)
+            yield Case("time_at_elevation", "time_at_elevation %s %s %s %s %s %s" % (
+                obs_tok(o), F(el), I(d.toordinal()), dir_tok(di), z.tok, B(wr)),
+                tinst(v, tz) if st == "ok" else E(v),
+                {"observer": obs_descr(o), "date": str(d), "zone": z.describe(), "elevation": el,
+                 "dir": di.name, "with_refraction": wr})
+        elif k == 5:
+            yield _event_case(rng, "noon", o, d, z, "", lambda: sun.noon(o, d, tz), {})
+        elif k == 6:
+            yield _event_case(rng, "midnight", o, d, z, "", lambda: sun.midnight(o, d, tz), {})
+        elif k == 7:
+            di = rng.choice([RISING, SETTING])
+            fn = rng.choice(["twilight", "golden_hour", "blue_hour"])
+            yield _event_case(rng, fn, o, d, z, " " + dir_tok(di),
+                              lambda: getattr(sun, fn)(o, d, di, tz), {"dir": di.name}, tpair)
+        elif k == 8:
+            fn = rng.choice(["daylight", "night"])
+            yield _event_case(rng, fn, o, d, z, "", lambda: getattr(sun, fn)(o, d, tz), {}, tpair)
+        else:
+            day = rng.random() < 0.5
+            yield _event_case(rng, "rahukaalam", o, d, z, " " + B(day),
+                              lambda: sun.rahukaalam(o, d, day, tz), {"daytime": day}, tpair)
+
+
 GROUPS = {
+    "sun_extreme": gen_extreme,
     "sun_chain": gen_chain,
     "refraction": gen_refraction,
     "hour_angle": gen_hour_angle,
